@@ -1,34 +1,45 @@
-(* Bls/Toy.v — a genuine instance of the pairing interface: G1 = G2 = GT = Z_r (additive),
-   generator 1, e(a,b) = a*b mod r, hash_to_g2 = SHA-256 mod r, enc1 = 48 big-endian bytes.
-   r = 2^31 - 1 (a Mersenne prime).  It is used (1) to EXECUTE the models on the symbolic
-   histories the harness interprets with real BLS (Run/BlsRun.v) and (2) to show that the premises
-   [pairing_laws] of the C15/C16 theorems are satisfiable (ToyProofs.v: toy_laws).
-   The only lemma here is the range fact needed to build elements; the laws are in ToyProofs.v. *)
+(* Bls/Toy.v — genuine instances of the pairing interface: for any modulus r >= 2,
+   G1 = G2 = GT = Z_r (additive), generator 1, e(a,b) = a*b mod r, hash_to_g2 = SHA-256 mod r,
+   enc1 = 48 big-endian bytes.
+     toy      r = 2^31 - 1 (a Mersenne prime; primality proved in ToyProofs.v)
+     toy_bls  r = the BLS12-381 group order (so the scalar layer is the real one)
+   They are used (1) to EXECUTE the models on the symbolic histories the harness interprets with
+   real BLS (Run/BlsRun.v) and (2) to show that the premises [pairing_laws] of the C15/C16 theorems
+   are satisfiable (ToyProofs.v).  The only lemma here is the range fact needed to build elements. *)
 From ChiaV.Base Require Import Bytes Sha256.
-From ChiaV.Bls Require Import Algebra.
+From ChiaV.Bls Require Import Algebra Verify Keys.
 Open Scope N_scope.
 
-Definition rtoy : N := 2147483647.
+Section ToyGen.
+Variable p : positive.
+Notation r := (Npos p).
 
-Record Zr : Type := mkZr { zv : N; zok : (zv <? rtoy) = true }.
+Record Zr : Type := mkZr { zv : N; zok : (zv <? r) = true }.
 
-Lemma mod_rtoy_ok n : (n mod rtoy <? rtoy) = true.
+Lemma mod_r_ok n : (n mod r <? r) = true.
 Proof. apply N.ltb_lt. apply N.mod_lt. discriminate. Qed.
 
-Definition zr (n : N) : Zr := mkZr (n mod rtoy) (mod_rtoy_ok n).
+Definition zr (n : N) : Zr := mkZr (n mod r) (mod_r_ok n).
 
 Definition zr_ops : gops Zr := {|
   gzero := zr 0;
   gadd := fun a b => zr (zv a + zv b);
-  gneg := fun a => zr (rtoy - zv a);
+  gneg := fun a => zr (r - zv a);
   geqb := fun a b => zv a =? zv b;
 |}.
 
-Definition toy : pairing_ops Zr Zr Zr := {|
+Definition toy_gen : pairing_ops Zr Zr Zr := {|
   o1 := zr_ops; o2 := zr_ops; oT := zr_ops;
-  order := rtoy;
+  order := r;
   gen1 := zr 1;
   pair := fun a b => zr (zv a * zv b);
   hash_to_g2 := fun b => zr (be2n (sha256 b));
   enc1 := fun a => n2be 48 (zv a);
 |}.
+End ToyGen.
+Arguments zv {p}. Arguments zok {p}.
+
+Definition rtoy_pos : positive := 2147483647.
+Definition rtoy : N := Npos rtoy_pos.
+Definition toy := toy_gen rtoy_pos.
+Definition toy_bls := toy_gen r_bls_pos.
